@@ -402,7 +402,8 @@ def mc_and_replay(ev, module, cfg, layer, timeout, required_actions, emit=("Emit
     if res.violated:
         spec_violation(ev, name, res)
     ev.add_report(name + ":replay", rep)
-    expected = res.distinct if emitting is None else sum(res.cov_distinct.get(a, 0) for a in emitting)
+    # states that print a script: all distinct states except the initial one and the canonical ones reached by Settle
+    expected = res.distinct if emitting is None else res.distinct - res.cov_distinct.get("Settle", 0) - 1
     if not coverage:
         expected = 1
     if rep["scripts"] < expected and not res.violated:
@@ -542,13 +543,64 @@ def check_chain(tier, ev):
     ev.exhaustive = True
 
 
+# ---- staking ------------------------------------------------------------------------------------
+STAKING = {
+    "C14": dict(quick=["quick", "quick4", "dust"], thorough=["quick", "thorough", "dust", "rewards_deep"],
+                focus="panic,ok.delegate,ok.undelegate,ok.redelegate,ok.advance,ok.set_withdraw,bal.delegate,bal.undelegate,"
+                      "bal.redelegate,bal.advance,bal.set_withdraw,stake.delegate,stake.undelegate,stake.redelegate,"
+                      "stake.advance,stake.withdraw,stake.set_withdraw",
+                need=["undelegate", "slash", "pending_unbonding", "failing_op", "redelegate"]),
+    "C15": dict(quick=["rewards", "quick"], thorough=["rewards", "rewards_deep", "thorough"],
+                focus="ok.withdraw,reward,bal.withdraw,panic.withdraw",
+                need=["withdraw", "nonzero_reward_shown", "slash"]),
+    "C16": dict(quick=["drift", "quick4", "quick"], thorough=["drift", "thorough", "dust"],
+                focus="ok.slash,stake.slash,bal.slash,bal.advance.slash,panic.slash,reward.slash",
+                need=["slash", "pending_unbonding", "undelegate"]),
+}
+
+
+def check_staking(tier, ev):
+    c = STAKING[ev.pid]
+    ev.rule = ("TLC enumerates every history (up to MaxOps operations) of delegate / undelegate / redelegate / withdraw / "
+               "set-withdraw-address / slash / advance-time (incl. zero amounts, foreign denomination, unknown validator, "
+               "fractions above one where the configuration is 'rich') over 1-2 delegators and 1-2 validators with commissions "
+               "0 and 50 %; every (operation, resulting state) is replayed on a real App with StakeKeeper and DistributionKeeper; "
+               "after EVERY operation Ok/Err/panic, every balance incl. the staking pool, every delegation (Delegation and "
+               "AllDelegations queries) and every pending reward (query and get_rewards) are compared with the specification; "
+               "first-divergence attribution to: " + c["focus"] + ". Non-trivial = the history contains a successful "
+               "undelegation or slash (distinct histories counted).")
+    ev.assumptions += ["time advances on the grid YEAR/100 with apr 1000 % and commissions 0 / 50 %, where the code's 18-digit "
+                       "fixed-point arithmetic is exact (a slash is explored only when the slashed shares are exact at scale 1e-4)",
+                       "after a slash the statement fixes whole-token results only up to dropped sub-token remainders: a stake y "
+                       "with floor((1-p)x) <= y <= exact value is accepted and ends the comparison of that history",
+                       "spec -> impl direction only (recorded staking traces would need TLC to reproduce 18-digit floors)"]
+    first = True
+    for name in c[tier]:
+        cfg = f"mc/MC_Staking_{name}.cfg"
+        mc_and_replay(ev, "mc/MC_Staking.tla", cfg, "staking", 3400, ["Delegate", "Undelegate", "Slash", "Advance", "Settle"],
+                      emitting=["Delegate", "Undelegate", "Slash", "Advance"],
+                      env={"MTV_FOCUS": c["focus"]}, need_features=c["need"] if first else ())
+        first = False
+    # design-level sanity: the two behaviours of the code before its repair are rejected by TLC
+    for name, expect in (("dust_prefix", "StakersConsistent"), ("drift_prefix", "SlashKeepsWhole")):
+        res, _ = run_tlc("mc/MC_Staking.tla", f"mc/MC_Staking_{name}.cfg", 900, f"{ev.pid}-{name}", coverage=False, expect_ok=False)
+        if not res.violated:
+            raise ToolError(f"vacuity: the pre-repair transcription {name} is not rejected by TLC")
+        ev.runs.append({"stage": f"MC_Staking_{name} (sanity: pre-repair behaviour rejected)", "violated": res.violated})
+    ev.exhaustive = True
+
+
 CHECKS = {"C06": check_C06, "C07": check_C07, "C09": check_C09}
+for _p in STAKING:
+    CHECKS[_p] = check_staking
 for _p in CHAIN:
     CHECKS[_p] = check_chain
 
 REPLAY_LAYER = {"C06": "overlay", "C07": "prefixed", "C09": "bank"}
 for _p in CHAIN:
     REPLAY_LAYER[_p] = "chain"
+for _p in STAKING:
+    REPLAY_LAYER[_p] = "staking"
 TRACE_SPEC = {"C06": ("trace/Trace_Overlay.tla", "trace/Trace_Overlay.cfg"),
               "C07": ("trace/Trace_Prefixed.tla", "trace/Trace_Prefixed.cfg"),
               "C09": ("trace/Trace_Bank.tla", "trace/Trace_Bank.cfg")}
